@@ -357,3 +357,27 @@ def hpack_decode_raises():
         notes.append('hpack Decoder raises classes outside the frozen '
                      'summary: %s' % sorted(extra))
     return set(HPACK_DECODE_RAISES) | got
+
+
+def frame_ctor_raises(cls, stream_id_const, has_extra_kwargs=False):
+    """Which exceptions can hyperframe's <cls>(stream_id, ...) raise, given
+    what is known about the stream id argument?  stream_id_const is an int
+    when the argument is a constant, else None.  The only checks in the
+    constructors are the stream association (InvalidDataError), the
+    SettingsFrame settings+ACK conflict and the AltSvcFrame bytes checks
+    (arguments are assumed well-typed)."""
+    fr = frames().get(cls)
+    if fr is None:
+        return {'InvalidDataError'}
+    assoc = fr['assoc']
+    if cls == 'SettingsFrame' and has_extra_kwargs:
+        return {'InvalidDataError'}
+    if assoc == 'either' or assoc is None:
+        return set()
+    if stream_id_const is None:
+        return {'InvalidDataError'}
+    if assoc == 'no-stream':
+        return set() if stream_id_const == 0 else {'InvalidDataError'}
+    if assoc == 'has-stream':
+        return set() if stream_id_const != 0 else {'InvalidDataError'}
+    return {'InvalidDataError'}
